@@ -51,6 +51,7 @@ class ImperialistCompetitiveOptimization(OptimizationAbstract):
         self.__countries = countries
 
         # Create empires
+        self.__empires = []
         costs = np.array([np.sum(countries[i].cost) for i in range(0, len(countries))])
         indices = np.argsort(costs)
         new_countries = np.array([countries[i] for i in indices])
